@@ -5,6 +5,7 @@ import (
 	"go/constant"
 	"go/token"
 	"go/types"
+	"strings"
 
 	"golang.org/x/tools/go/ssa"
 )
@@ -33,6 +34,8 @@ const (
 	aSlot           // address of element Idx of the package-level table G
 	aPtr            // pointer to abstract struct object Idx of the evaluator's heap
 	aFieldRef       // address of field C (int) of abstract object Idx
+	aList           // an immutable list of known values (strings.Split of a constant)
+	aElemRef        // address of element C (int) of the list held in L
 )
 
 type aval struct {
@@ -42,6 +45,7 @@ type aval struct {
 	G   *ssa.Global
 	Fn  *ssa.Function
 	Idx int64
+	L   []aval // aList / aElemRef
 }
 
 func (a aval) String() string {
@@ -54,6 +58,14 @@ func (a aval) String() string {
 			return "dyn:" + typeString(a.Tag) + "=" + a.C.ExactString()
 		}
 		return "dyn:" + typeString(a.Tag)
+	case aList:
+		parts := make([]string, len(a.L))
+		for i, e := range a.L {
+			parts[i] = e.String()
+		}
+		return "list[" + strings.Join(parts, " ") + "]"
+	case aElemRef:
+		return "elem#" + a.C.ExactString()
 	case aPtr:
 		return fmt.Sprintf("ptr#%d", a.Idx)
 	case aFieldRef:
@@ -101,6 +113,10 @@ type tagEval struct {
 	tables      map[*ssa.Global]map[int64]*ssa.Function   // package-level arrays/maps of functions, by constant index
 	// heap of abstract struct objects (field index -> value); shared by all frames, so a
 	// fork on an undecided condition while it is in use makes the results unreliable
+	// lookupHook answers a map lookup (value, found); mapUpdateObs observes m[k] = v; makeMapHook names a fresh map
+	lookupHook   func(l *ssa.Lookup, m, k aval) ([]aval, bool)
+	mapUpdateObs func(u *ssa.MapUpdate, m, k, v aval)
+	makeMapHook  func(mm *ssa.MakeMap) (aval, bool)
 	heap       map[int64]map[int]aval
 	nextObj    int64
 	heapForked bool
@@ -476,6 +492,11 @@ func (te *tagEval) run(fr *frame, b *ssa.BasicBlock, pred *ssa.BasicBlock, depth
 					if xv.K == aGlobal {
 						fr.env[x] = xv // the value stored in the global
 					}
+					if xv.K == aElemRef {
+						if k, ok := constant.Int64Val(xv.C); ok && k >= 0 && int(k) < len(xv.L) {
+							fr.env[x] = xv.L[k]
+						}
+					}
 					if xv.K == aFieldRef {
 						f, _ := constant.Int64Val(xv.C)
 						if v, ok := te.heap[xv.Idx][int(f)]; ok {
@@ -496,6 +517,43 @@ func (te *tagEval) run(fr *frame, b *ssa.BasicBlock, pred *ssa.BasicBlock, depth
 						fr.env[x] = aval{K: aConst, C: constant.UnaryOp(token.SUB, xv.C, 0)}
 					}
 				}
+			case *ssa.MakeMap:
+				if te.makeMapHook != nil {
+					if a, ok := te.makeMapHook(x); ok {
+						fr.env[x] = a
+					}
+				}
+			case *ssa.MapUpdate:
+				if te.mapUpdateObs != nil {
+					te.mapUpdateObs(x, te.val(fr, x.Map), te.val(fr, x.Key), te.val(fr, x.Value))
+				}
+			case *ssa.Slice:
+				// s[lo:hi] of a constant string with constant bounds
+				xv := te.val(fr, x.X)
+				if xv.K == aConst && xv.C != nil && xv.C.Kind() == constant.String {
+					str := constant.StringVal(xv.C)
+					lo, hi := 0, len(str)
+					okb := true
+					if x.Low != nil {
+						if lv := te.val(fr, x.Low); lv.K == aConst && lv.C != nil && lv.C.Kind() == constant.Int {
+							k, _ := constant.Int64Val(lv.C)
+							lo = int(k)
+						} else {
+							okb = false
+						}
+					}
+					if x.High != nil {
+						if hv := te.val(fr, x.High); hv.K == aConst && hv.C != nil && hv.C.Kind() == constant.Int {
+							k, _ := constant.Int64Val(hv.C)
+							hi = int(k)
+						} else {
+							okb = false
+						}
+					}
+					if okb && 0 <= lo && lo <= hi && hi <= len(str) {
+						fr.env[x] = aval{K: aConst, C: constant.MakeString(str[lo:hi])}
+					}
+				}
 			case *ssa.Alloc:
 				if te.heap != nil {
 					if _, isStruct := x.Type().Underlying().(*types.Pointer).Elem().Underlying().(*types.Struct); isStruct {
@@ -507,6 +565,12 @@ func (te *tagEval) run(fr *frame, b *ssa.BasicBlock, pred *ssa.BasicBlock, depth
 					fr.env[x] = aval{K: aFieldRef, Idx: bv.Idx, C: constant.MakeInt64(int64(x.Field))}
 				}
 			case *ssa.IndexAddr:
+				if lv := te.val(fr, x.X); lv.K == aList {
+					if iv := te.val(fr, x.Index); iv.K == aConst && iv.C != nil && iv.C.Kind() == constant.Int {
+						fr.env[x] = aval{K: aElemRef, C: iv.C, L: lv.L}
+					}
+					continue
+				}
 				if g, ok := x.X.(*ssa.Global); ok {
 					if iv := te.val(fr, x.Index); iv.K == aConst && iv.C != nil && iv.C.Kind() == constant.Int {
 						if _, isTable := te.tables[g]; isTable && !te.globalWrittenElsewhere(g) {
@@ -518,6 +582,16 @@ func (te *tagEval) run(fr *frame, b *ssa.BasicBlock, pred *ssa.BasicBlock, depth
 			case *ssa.Lookup:
 				mv := te.val(fr, x.X)
 				kv := te.val(fr, x.Index)
+				if te.lookupHook != nil {
+					if res, ok := te.lookupHook(x, mv, kv); ok {
+						if x.CommaOk {
+							fr.tuples[x] = res
+						} else if len(res) > 0 {
+							fr.env[x] = res[0]
+						}
+						continue
+					}
+				}
 				if mv.K == aGlobal && kv.K == aConst && kv.C != nil && kv.C.Kind() == constant.String && !x.CommaOk {
 					if m, ok := te.globals[mv.G]; ok && !te.globalWrittenElsewhere(mv.G) {
 						if cv, ok := m[constant.StringVal(kv.C)]; ok {
@@ -673,6 +747,80 @@ func (te *tagEval) call(fr *frame, call *ssa.Call, depth int, outs *[]outcome) {
 		}
 	}
 	full := calleeFullName(call)
+	// builtins and string functions on known constants
+	if b, ok := cc.Value.(*ssa.Builtin); ok && b.Name() == "len" && len(cc.Args) == 1 {
+		av := te.val(fr, cc.Args[0])
+		switch {
+		case av.K == aList:
+			fr.env[call] = aval{K: aConst, C: constant.MakeInt64(int64(len(av.L)))}
+			return
+		case av.K == aConst && av.C != nil && av.C.Kind() == constant.String:
+			fr.env[call] = aval{K: aConst, C: constant.MakeInt64(int64(len(constant.StringVal(av.C))))}
+			return
+		}
+	}
+	constStr := func(i int) (string, bool) {
+		if i >= len(cc.Args) {
+			return "", false
+		}
+		a := te.val(fr, cc.Args[i])
+		if a.K == aConst && a.C != nil && a.C.Kind() == constant.String {
+			return constant.StringVal(a.C), true
+		}
+		if a.K == aConst && a.C != nil && a.C.Kind() == constant.Int {
+			k, _ := constant.Int64Val(a.C)
+			return string(rune(k)), true // a byte / rune argument
+		}
+		return "", false
+	}
+	switch full {
+	case "strings.Split":
+		if a, ok := constStr(0); ok {
+			if sep, ok := constStr(1); ok {
+				var l []aval
+				for _, p := range strings.Split(a, sep) {
+					l = append(l, aval{K: aConst, C: constant.MakeString(p)})
+				}
+				fr.env[call] = aval{K: aList, L: l}
+				return
+			}
+		}
+	case "strings.IndexByte", "strings.Index", "strings.IndexRune", "strings.LastIndex", "strings.LastIndexByte":
+		if a, ok := constStr(0); ok {
+			if sep, ok := constStr(1); ok {
+				r := strings.Index(a, sep)
+				if strings.HasPrefix(full, "strings.LastIndex") {
+					r = strings.LastIndex(a, sep)
+				}
+				fr.env[call] = aval{K: aConst, C: constant.MakeInt64(int64(r))}
+				return
+			}
+		}
+	case "strings.Cut":
+		if a, ok := constStr(0); ok {
+			if sep, ok := constStr(1); ok {
+				b, af, found := strings.Cut(a, sep)
+				fr.tuples[call] = []aval{{K: aConst, C: constant.MakeString(b)}, {K: aConst, C: constant.MakeString(af)}, {K: aConst, C: constant.MakeBool(found)}}
+				return
+			}
+		}
+	case "strings.HasPrefix", "strings.HasSuffix", "strings.Contains":
+		if a, ok := constStr(0); ok {
+			if b, ok := constStr(1); ok {
+				r := false
+				switch full {
+				case "strings.HasPrefix":
+					r = strings.HasPrefix(a, b)
+				case "strings.HasSuffix":
+					r = strings.HasSuffix(a, b)
+				default:
+					r = strings.Contains(a, b)
+				}
+				fr.env[call] = aval{K: aConst, C: constant.MakeBool(r)}
+				return
+			}
+		}
+	}
 	// reflect.TypeOf(v).Kind().String()
 	switch full {
 	case "reflect.TypeOf":
